@@ -283,6 +283,19 @@ def hJoinProbe : List String → String → Res
   | [_n, _w, _seed], impl => some ("ok", verdictEq "ok" impl)
   | _, _ => none
 
+/-- `tbl <name>`: the live package tables against the model's (`select8Table`, `idxToPathRow`, the mask functions) -/
+def hTbl : List String → String → Res
+  | ["select8"], impl =>
+    let m := showNats select8Table.toList
+    some (m, verdictEq m impl)
+  | ["masks"], impl =>
+    let r65 := List.range 65
+    let r64 := List.range 64
+    let m := String.intercalate ";" [showNats (r65.map mask), showNats (r65.map rmask), showNats (r64.map maskUpto),
+      showNats (r64.map rmaskUpto), showNats (r64.map bit), showNats (r64.map rbit)]
+    some (m, verdictEq m impl)
+  | _, _ => none
+
 def hGetw : List String → String → Res
   | [ws, i, w], impl => do
     let ws ← pNatList ws; let i ← pNat i; let w ← pNat w
